@@ -160,7 +160,7 @@ def workload(ctx, lentil):
         sc = max(float(np.abs(opd_own).max()), 1e-300)
         ctx.close('compose=own-basis', opd_l, opd_own, 1e-9, 'compose|value',
                   'zernike_compose differs from the sum of coefficient times textbook mode', desc, scale=sc)
-        rtol = max(1e-6, cond * 1e-13)
+        rtol = max(1e-10, cond * 1e-13)
         try:
             fit = lentil.zernike_fit(gen.layout(rng, opd_own), gen.layout(rng, maskf), modes, normalize=normalize, **kw)
             ctx.close('fit=coeffs', np.asarray(fit, float), coeffs, rtol, 'fit|coeffs',
@@ -204,7 +204,7 @@ def workload(ctx, lentil):
                     ctx.bucket('coords:switched')
                     opd2 = np.tensordot(coeffs, B2, axes=1)
                     fit2 = lentil.zernike_fit(opd2, maskf, modes, normalize=normalize, **kw2)
-                    r2tol = max(1e-6, sv2[0] / sv2[-1] * 1e-13)
+                    r2tol = max(1e-10, sv2[0] / sv2[-1] * 1e-13)
                     ctx.close('fit=coeffs', np.asarray(fit2, float), coeffs, r2tol, 'fit|coeffs|after-other-coordinates',
                               'a fit on the same mask and modes gives wrong coefficients after a fit that used other coordinates', desc,
                               scale=float(np.abs(coeffs).max()))
